@@ -18,7 +18,7 @@ import traceback
 from typing import Any, Dict, List, Optional, Tuple
 
 from . import battery, core
-from .threads import Deadlock, Scheduler, SimLock, StepCap
+from .threads import Deadlock, Scheduler, SimCondition, SimEvent, SimLock, StepCap
 
 PROP = "C19"
 DEEP_RATE = float(os.environ.get("VERIF_C19_DEEP", "0.0"))
@@ -455,6 +455,7 @@ def execute(run: Dict[str, Any], golden: Dict[str, Any]) -> Dict[str, Any]:
     import threading as _th
 
     real_Lock, real_RLock = _th.Lock, _th.RLock
+    real_Event, real_Condition = _th.Event, _th.Condition
 
     def _pkg_caller() -> bool:
         f = sys._getframe(2)
@@ -466,6 +467,14 @@ def execute(run: Dict[str, Any], golden: Dict[str, Any]) -> Dict[str, Any]:
     def sim_RLock(*a: Any, **k: Any) -> Any:
         return SimLock(sched, reentrant=True) if _pkg_caller() else real_RLock(*a, **k)
 
+    def sim_Event(*a: Any, **k: Any) -> Any:
+        return SimEvent(sched) if _pkg_caller() else real_Event(*a, **k)
+
+    def sim_Condition(lock: Any = None) -> Any:
+        if _pkg_caller() or isinstance(lock, SimLock):
+            return SimCondition(sched, lock if isinstance(lock, SimLock) else None)
+        return real_Condition(lock)
+
     # module-level locks of the package (created at import time in the zygote) are swapped too
     for m in (Z["hooks"], Z["conv"], lsp):
         for k_, v_ in list(vars(m).items()):
@@ -473,7 +482,13 @@ def execute(run: Dict[str, Any], golden: Dict[str, Any]) -> Dict[str, Any]:
                 setattr(m, k_, SimLock(sched))
             elif isinstance(v_, type(real_RLock())):
                 setattr(m, k_, SimLock(sched, reentrant=True))
-    _th.Lock, _th.RLock = sim_Lock, sim_RLock
+            elif isinstance(v_, real_Event):
+                ev_ = SimEvent(sched)
+                ev_._flag = v_.is_set()
+                setattr(m, k_, ev_)
+            elif isinstance(v_, real_Condition):
+                setattr(m, k_, SimCondition(sched))
+    _th.Lock, _th.RLock, _th.Event, _th.Condition = sim_Lock, sim_RLock, sim_Event, sim_Condition
 
     # probes on switches -------------------------------------------------------------------
     import linecache
@@ -656,7 +671,7 @@ def execute(run: Dict[str, Any], golden: Dict[str, Any]) -> Dict[str, Any]:
     except TimeoutError as e:
         harness = f"wall timeout: {e}"
     finally:
-        _th.Lock, _th.RLock = real_Lock, real_RLock
+        _th.Lock, _th.RLock, _th.Event, _th.Condition = real_Lock, real_RLock, real_Event, real_Condition
     for i, e in enumerate(sched.errors):
         if e is not None:
             harness = f"driver exception in thread {i}: {core.fmt_exc(e)}"
